@@ -221,8 +221,14 @@ def replay_one(scn, rec, opts):
                     viol = ("stale", "a value saved at an answer denotes a different term after the query ended")
                     obs, exp = obs.get("stale"), []
                 else:
-                    snap = runner.snapshot()
-                    if norm(snap["dbs"]) != norm(st["dbs"]):
+                    try:
+                        snap = runner.snapshot()
+                    except Exception as e:     # reading the database back through match_dynamic failed in the code under test
+                        snap = None
+                        viol = ("exception", "read-back:%s: %s" % (type(e).__name__, str(e)[:120]))
+                    if snap is None:
+                        pass
+                    elif norm(snap["dbs"]) != norm(st["dbs"]):
                         viol = ("db", "database contents differ")
                         obs = {"obs": obs, "dbs": snap["dbs"]}
                         exp = {"obs": exp, "dbs": st["dbs"]}
